@@ -380,6 +380,57 @@ def _replace_def(tree, old, new) -> bool:
     return False
 
 
+def _unlift_closure(tree, relpath, q, node, r, new_helpers):
+    """`def F(c): def w(x): BODY; return w`  written as  `def g(c, x): BODY` + `def F(c): return partial(g, c)`:
+    rebuilds the nested form from the lifted one and answers the reference text when the two agree (alpha digest)."""
+    ref = reference()
+    nested_ref = [k for k in ref if k.startswith(f"{relpath}::{q}.") and k.count(".") == f"{relpath}::{q}".count(".") + 1]
+    if len(nested_ref) != 1 or any(isinstance(x, _FUNCS) for b in node.body for x in ast.walk(b)):
+        return None
+    wname = nested_ref[0].rsplit(".", 1)[1]
+    body = [s_ for s_ in node.body if not (isinstance(s_, ast.Expr) and isinstance(s_.value, ast.Constant))]
+    if not body or not isinstance(body[-1], ast.Return):
+        return None
+    call = body[-1].value
+    if not (isinstance(call, ast.Call) and isinstance(call.func, ast.Name) and call.func.id == "partial" and call.args and isinstance(call.args[0], ast.Name)
+            and not call.keywords and all(isinstance(a, ast.Name) for a in call.args[1:])):
+        return None
+    gname = call.args[0].id
+    g = dict((hq, hn) for hq, hn in new_helpers if "." not in hq).get(gname)
+    if g is None:
+        return None
+    caps = [a.id for a in call.args[1:]]
+    gp = g.args.args
+    if len(gp) < len(caps) or g.args.posonlyargs or g.decorator_list:
+        return None
+    import copy as _copy
+    w = _copy.deepcopy(g)
+    w.name = wname
+    lifted = [a.arg for a in gp[:len(caps)]]
+    w.args.args = w.args.args[len(caps):]
+    if len(w.args.defaults) > len(w.args.args):
+        return None
+    inner_bound = _params(w) | set(locals_in_order(w))
+    if set(lifted) & inner_bound:
+        return None
+    for n in ast.walk(w):
+        if isinstance(n, ast.Name) and n.id in lifted:
+            n.id = caps[lifted.index(n.id)]
+    cand = _copy.deepcopy(node)
+    cb = [s_ for s_ in cand.body]
+    cb[-1:] = [w, ast.Return(value=ast.Name(id=wname, ctx=ast.Load()))]
+    cand.body = cb
+    drop_local_annotations(ast.Module(body=[cand], type_ignores=[]))
+    try:
+        from .normal import normal_form as nf
+
+        if digest(nf(cand, signatures())) != _ref_nf(f"{relpath}::{q}", r):
+            return None
+    except Exception:
+        return None
+    return gname
+
+
 def restore_refactored(tree: ast.Module, relpath: str) -> List[str]:
     """A function whose normal form (sa/normal.py) equals the reference function's is replaced, in the model, by the
     reference text: the two are the same function in different dress."""
@@ -417,6 +468,17 @@ def restore_refactored(tree: ast.Module, relpath: str) -> List[str]:
                     todo += [(n, depth + 1) for n in _called_names(d)]
         if sum(1 for x in ast.walk(node) if isinstance(x, ast.stmt)) > 250:
             continue  # far beyond any function of the package: not worth normalising
+        lifted = _unlift_closure(tree, relpath, q, node, r, new_helpers)
+        if lifted is not None:
+            new = ast.parse(r["src"]).body[0]
+            for n in ast.walk(new):
+                n.lineno = getattr(node, "lineno", 1)
+                n.end_lineno = n.lineno
+                n.col_offset = n.end_col_offset = 0
+            if _replace_def(tree, node, new):
+                done.append(f"{key}: a closure lifted to `{lifted}` + functools.partial - analysed in the reference's nested shape")
+                used_helpers.add(lifted)
+            continue
         try:
             cur = digest(nf(node, signatures(), helpers=helpers, in_class=cls is not None))
             if cur != _ref_nf(key, r):
